@@ -944,7 +944,7 @@ func (in *Interp) eval(e Expr, sc *scope, fr *frame) (Value, *ctl) {
 			return nil, c
 		}
 		if v.Yield != "" {
-			if c := in.declare(sc, v.Yield, res, true); c != nil {
+			if c := in.declare(sc, v.Yield, Copy(res), true); c != nil {
 				return nil, c
 			}
 		}
@@ -993,7 +993,7 @@ func (in *Interp) eval(e Expr, sc *scope, fr *frame) (Value, *ctl) {
 			}
 		}
 		if v.Yield != "" {
-			if c := in.declare(sc, v.Yield, cur, true); c != nil {
+			if c := in.declare(sc, v.Yield, Copy(cur), true); c != nil {
 				return nil, c
 			}
 		}
